@@ -511,9 +511,21 @@ CHECKS += [
          technique="lifted execution of the boson mappings on z3 complex coefficient terms; z3 QF_LRA relaxation / QF_NRA entry-wise proofs against truncated ladder matrices"),
 ]
 
+CHECKS += [
+    dict(property_id="C04", category="other", engine=E1,
+         text="Partial (symbolic parameters, tolerances read as exact): 39 operator builders and 34 operator / measurement-process pairs (26 + 3 self pairs + 5 measurement pairs) with SYMBOLIC angles, coefficients and exponents through the REAL "
+              "qp.equal; its parameter comparisons fork the execution. Per pair and feasible path: qp.equal(X, Y) == qp.equal(Y, X); on every path where it is True z3 proves "
+              "matrix(X) == matrix(Y) for all parameter values admitted by the path (pairs are single-field mutations: a parameter, a wire, control values and their order, exponents, "
+              "coefficients, operand order, wrappers added / removed; measurement processes also need equal types). Per builder: X equals itself, its copy, deep copy, "
+              "flatten/unflatten reconstruction and an independent construction on every path.",
+         note=PROOF_NOTE + " Category 'other' (partial): the lifting decides a tolerance comparison (allclose) as exact equality, so the numeric size of rtol / atol is abstracted; Python hashes "
+              "(hash() realises solver terms), check_interface / check_trainability, batched parameters and operators outside the listed builders are outside. A hand-made mutant that compares "
+              "control values only by their sum is reported (soundness of ctrl(RZ) with control values (1,0) vs (0,1)).",
+         technique="lifted execution of qp.equal on z3 parameter terms with solver-decided forks; z3 QF_NRA matrix-identity proofs under the path condition"),
+]
+
 _NOT_BUILT = "claimed in DESIGN.md §4 but its solver-based check is not built yet in this tree"
 NOT_APPLICABLE_REASONS = {
-    "C04": "equality/hash: Python hash() of concrete payloads and tolerance-based allclose relations; no exact relation a solver can decide",
     "C06": "copy/pickle/pytree round-trips: object-graph identity and C-level (un)pickling; no symbolic dimension",
     "C11": "declared resources depend only on discrete configurations that must each be run concretely; no symbolic dimension",
     "C14": "unitary synthesis runs through eig/svd/det and arctan2/arccos on arbitrary unitaries (LAPACK, inverse transcendental functions)",
